@@ -1,6 +1,7 @@
 package main
 
 import (
+	"os"
 	"fmt"
 	"go/token"
 	"go/types"
@@ -29,9 +30,9 @@ func genCallOf(v ssa.Value) *ssa.Call {
 func uniformDraw(P *Program, c *ssa.Call) (Affine, bool) {
 	switch calleeName(c) {
 	case "common.RandomBigInt":
-		return affineOf(c.Call.Args[0])
+		return affineOf(callArgs(c)[0])
 	case "big.RandInt":
-		if len(c.Call.Args) != 2 || desc(c.Call.Args[0]) != "global:crypto/rand.Reader" {
+		if len(callArgs(c)) != 2 || desc(callArgs(c)[0]) != "global:crypto/rand.Reader" {
 			return Affine{}, false
 		}
 		ts := P.bigEval(c.Parent()).at(c)
@@ -55,6 +56,53 @@ type randRow struct {
 	Gen      string
 	Arg      string // expected affine string of the length argument ("" = not checked); for FastRandomBigInt the term of the limit
 	InLoop   bool   // sink is per-element: generator call must be inside the same loop
+	// Slot, when set, discovers the sink instead of naming it: the builder field that plays the randomiser's role in
+	// the response the proving method stores into the named proof field (so regrouping or renaming unexported
+	// builder fields does not move the obligation, and a randomiser drawn into a field the response does not use is
+	// not mistaken for it). It falls back to Sink when nothing is discovered.
+	Slot func(P *Program) string
+}
+
+// responseRandomizerSlot: in fnKey, the value stored into proof field respField is rnd + challenge*(...); returns the
+// descriptor of rnd (the one monomial that is a plain symbol with coefficient 1 and does not mention the challenge).
+func responseRandomizerSlot(fnKey, respField string) func(P *Program) string {
+	return func(P *Program) string {
+		fn := P.Func(fnKey)
+		if fn == nil {
+			return ""
+		}
+		be := P.bigEval(fn)
+		slot := ""
+		allInstrs(fn, func(i ssa.Instruction) {
+			st, ok := i.(*ssa.Store)
+			if !ok || !strings.HasSuffix(desc(st.Addr), "."+respField) || !strings.HasPrefix(desc(st.Addr), "new:") {
+				return
+			}
+			t := be.Use[st][st.Val]
+			if t.Top {
+				return
+			}
+			n := 0
+			cand := ""
+			for _, m := range t.M {
+				if m.syms["arg#1"] > 0 {
+					continue
+				}
+				n++
+				if len(m.syms) == 1 && m.coef.Cmp(bigOneM) == 0 && m.exp.isConst() && m.exp.C == 0 {
+					for sname, pw := range m.syms {
+						if pw == 1 {
+							cand = sname
+						}
+					}
+				}
+			}
+			if n == 1 && cand != "" {
+				slot = cand
+			}
+		})
+		return slot
+	}
 }
 
 func fieldSink(d string) func(string, string) bool {
@@ -89,19 +137,19 @@ func canonOwner(d string) string {
 var nbD = "new:gabi.DisclosureProofBuilder"
 
 var randTable = []randRow{
-	{kCredBuilder, "eCommit", fieldSink(nbD + ".eCommit"), "common.RandomBigInt", "LeCommit", false},
-	{kCredBuilder, "vCommit", fieldSink(nbD + ".vCommit"), "common.RandomBigInt", "LvCommit", false},
-	{kCredBuilder, "attrRandomizers[hidden]", mapSink(nbD+".attrRandomizers", nbD+".undisclosedAttributes[#i]"), "common.RandomBigInt", "LmCommit", true},
-	{kNewCB, "vPrime", fieldSink("new:gabi.CredentialBuilder.vPrime"), "common.RandomBigInt", "LvPrime", false},
-	{kNewCB, "vPrimeCommit", fieldSink("new:gabi.CredentialBuilder.vPrimeCommit"), "common.RandomBigInt", "LvPrimeCommit", false},
-	{kNewCB, "mUser[i+1]", mapSink("makemap", "(arg#5[#i]+1)"), "common.RandomBigInt", "Lm-1", true},
-	{kNewCB, "mUserCommit[i]", mapSink("makemap", "rangekey(makemap)"), "common.RandomBigInt", "LmCommit", true},
-	{"gabi.(*Credential).NonrevBuildProofBuilder", "nonrev randomizer", fieldSink("new:gabi.NonRevocationProofBuilder.randomizer"), "revocation.NewProofRandomizer", "", false},
-	{kSignCommit, "issuer blind share", mapSink("makemap", "(arg#3[#i]+1)"), "common.RandomBigInt", "Lm-1", true},
-	{"rangeproof.(*ProofStructure).CommitmentsFromSecrets", "dRandomizers[i]", func(t, k string) bool { return strings.HasSuffix(t, ".dRandomizers[#i]") }, "common.RandomBigInt", "<rangeproof.ProofStructure>.ld+Lh+Lstatzk", true},
-	{"rangeproof.(*ProofStructure).CommitmentsFromSecrets", "v[i]", func(t, k string) bool { return strings.HasSuffix(t, ".v[#i]") }, "common.RandomBigInt", "Lm", true},
-	{"rangeproof.(*ProofStructure).CommitmentsFromSecrets", "vRandomizers[i]", func(t, k string) bool { return strings.HasSuffix(t, ".vRandomizers[#i]") }, "common.RandomBigInt", "Lh+Lm+Lstatzk", true},
-	{"rangeproof.(*ProofStructure).CommitmentsFromSecrets", "v5Randomizer", func(t, k string) bool { return strings.HasSuffix(t, ".v5Randomizer") }, "common.RandomBigInt", "<rangeproof.ProofStructure>.ld+Lh+Lm+Lstatzk+2", false},
+	{Fn: kCredBuilder, Name: "eCommit", Sink: fieldSink(nbD + ".eCommit"), Gen: "common.RandomBigInt", Arg: "LeCommit", Slot: responseRandomizerSlot(kDPBCreateProof, "EResponse")},
+	{Fn: kCredBuilder, Name: "vCommit", Sink: fieldSink(nbD + ".vCommit"), Gen: "common.RandomBigInt", Arg: "LvCommit", Slot: responseRandomizerSlot(kDPBCreateProof, "VResponse")},
+	{Fn: kCredBuilder, Name: "attrRandomizers[hidden]", Sink: mapSink(nbD+".attrRandomizers", nbD+".undisclosedAttributes[#i]"), Gen: "common.RandomBigInt", Arg: "LmCommit", InLoop: true},
+	{Fn: kNewCB, Name: "vPrime", Sink: fieldSink("new:gabi.CredentialBuilder.vPrime"), Gen: "common.RandomBigInt", Arg: "LvPrime", InLoop: false},
+	{Fn: kNewCB, Name: "vPrimeCommit", Sink: fieldSink("new:gabi.CredentialBuilder.vPrimeCommit"), Gen: "common.RandomBigInt", Arg: "LvPrimeCommit", Slot: responseRandomizerSlot("gabi.(*CredentialBuilder).CreateProof", "VPrimeResponse")},
+	{Fn: kNewCB, Name: "mUser[i+1]", Sink: mapSink("makemap", "(arg#5[#i]+1)"), Gen: "common.RandomBigInt", Arg: "Lm-1", InLoop: true},
+	{Fn: kNewCB, Name: "mUserCommit[i]", Sink: mapSink("makemap", "rangekey(makemap)"), Gen: "common.RandomBigInt", Arg: "LmCommit", InLoop: true},
+	{Fn: "gabi.(*Credential).NonrevBuildProofBuilder", Name: "nonrev randomizer", Sink: fieldSink("new:gabi.NonRevocationProofBuilder.randomizer"), Gen: "revocation.NewProofRandomizer", Arg: "", InLoop: false},
+	{Fn: kSignCommit, Name: "issuer blind share", Sink: mapSink("makemap", "(arg#3[#i]+1)"), Gen: "common.RandomBigInt", Arg: "Lm-1", InLoop: true},
+	{Fn: "rangeproof.(*ProofStructure).CommitmentsFromSecrets", Name: "dRandomizers[i]", Sink: func(t, k string) bool { return strings.HasSuffix(t, ".dRandomizers[#i]") }, Gen: "common.RandomBigInt", Arg: "<rangeproof.ProofStructure>.ld+Lh+Lstatzk", InLoop: true},
+	{Fn: "rangeproof.(*ProofStructure).CommitmentsFromSecrets", Name: "v[i]", Sink: func(t, k string) bool { return strings.HasSuffix(t, ".v[#i]") }, Gen: "common.RandomBigInt", Arg: "Lm", InLoop: true},
+	{Fn: "rangeproof.(*ProofStructure).CommitmentsFromSecrets", Name: "vRandomizers[i]", Sink: func(t, k string) bool { return strings.HasSuffix(t, ".vRandomizers[#i]") }, Gen: "common.RandomBigInt", Arg: "Lh+Lm+Lstatzk", InLoop: true},
+	{Fn: "rangeproof.(*ProofStructure).CommitmentsFromSecrets", Name: "v5Randomizer", Sink: func(t, k string) bool { return strings.HasSuffix(t, ".v5Randomizer") }, Gen: "common.RandomBigInt", Arg: "<rangeproof.ProofStructure>.ld+Lh+Lm+Lstatzk+2", InLoop: false},
 }
 
 func init() {
@@ -158,8 +206,8 @@ func sinksDirect(fn *ssa.Function) []sinkInfo {
 			return
 		}
 		s.valDesc = desc(s.val)
-		if g := genCallOf(s.val); g != nil && len(g.Call.Args) > 0 {
-			if a, ok := affineOf(g.Call.Args[0]); ok {
+		if g := genCallOf(s.val); g != nil && len(callArgs(g)) > 0 {
+			if a, ok := affineOf(callArgs(g)[0]); ok {
 				s.genArg = a.String()
 			}
 		}
@@ -185,7 +233,7 @@ func loopCollectionDesc(l *Loop) string {
 	for _, ins := range l.Header.Instrs {
 		if bo, ok := ins.(*ssa.BinOp); ok && bo.Op == token.LSS {
 			if c, ok := bo.Y.(*ssa.Call); ok && isCallTo(c, "builtin:len") {
-				return desc(c.Call.Args[0])
+				return desc(callArgs(c)[0])
 			}
 		}
 	}
@@ -194,7 +242,7 @@ func loopCollectionDesc(l *Loop) string {
 		for _, ins := range lb.Instrs {
 			if bo, ok := ins.(*ssa.BinOp); ok && bo.Op == token.LSS {
 				if c, ok := bo.Y.(*ssa.Call); ok && isCallTo(c, "builtin:len") {
-					return desc(c.Call.Args[0])
+					return desc(callArgs(c)[0])
 				}
 			}
 		}
@@ -284,8 +332,20 @@ func randomizerSourceRule(P *Program, R *Report) {
 			continue
 		}
 		n := 0
+		sink := row.Sink
+		if row.Slot != nil {
+			if slot := row.Slot(P); slot != "" {
+				sink = fieldSink(slot)
+				if os.Getenv("GABIDBG") != "" {
+					fmt.Println("DBG slot", row.Name, slot)
+					for _, s := range sinksOfDeep(fn) {
+						fmt.Println("DBG   sink", s.target, s.key)
+					}
+				}
+			}
+		}
 		for _, s := range sinksOfDeep(fn) {
-			if !row.Sink(canonOwner(s.target), canonOwner(s.key)) && !row.Sink(s.target, s.key) {
+			if !sink(canonOwner(s.target), canonOwner(s.key)) && !sink(s.target, s.key) {
 				continue
 			}
 			n++
@@ -333,7 +393,7 @@ func randomizerSourceRule(P *Program, R *Report) {
 		for _, s := range sinksOfDeep(fn) {
 			if s.key == `"secretkey"` {
 				if g := genCallOf(s.val); g != nil && calleeIs(g, "common.RandomBigInt") {
-					a, _ := affineOf(g.Call.Args[0])
+					a, _ := affineOf(callArgs(g)[0])
 					ok = a.String() == "LsCommit"
 				}
 			}
@@ -345,7 +405,7 @@ func randomizerSourceRule(P *Program, R *Report) {
 		for _, s := range sinksOf(fn) {
 			if s.key == `"secretkey"` {
 				if g := genCallOf(s.val); g != nil && calleeIs(g, "common.RandomBigInt") {
-					a, _ := affineOf(g.Call.Args[0])
+					a, _ := affineOf(callArgs(g)[0])
 					ok = a.String() == "LmCommit@1024"
 				}
 			}
@@ -368,7 +428,7 @@ func randomizerSourceRule(P *Program, R *Report) {
 			if isCallTo(c, "big.RandInt") {
 				call := c.(*ssa.Call)
 				t := P.bigEval(fn).At[call]
-				ok = desc(call.Call.Args[0]) == "global:crypto/rand.Reader" && len(t) == 2 && t[1].equal(pow2("arg#0"))
+				ok = desc(callArgs(call)[0]) == "global:crypto/rand.Reader" && len(t) == 2 && t[1].equal(pow2("arg#0"))
 			}
 		}
 		R.decide(rule, "common.RandomBigInt:source", "RandomBigInt(n) = RandInt(crypto/rand.Reader, 2^n)", ok, "", P.Pos(fn.Pos()))
@@ -496,8 +556,8 @@ func noEscapeRule(P *Program, R *Report) {
 				continue
 			}
 			if fa, isFA := st.Addr.(*ssa.FieldAddr); isFA {
-				if owner := typeKey(fa.X.Type()); longLived[owner] {
-					offenders = append(offenders, fmt.Sprintf("%s stores %s into %s.%s at %s", FuncKey(fn), vt, owner, fieldName(fa.X.Type(), fa.Field), P.Pos(st.Pos())))
+				if owner := faType(fa); longLived[owner] {
+					offenders = append(offenders, fmt.Sprintf("%s stores %s into %s.%s at %s", FuncKey(fn), vt, owner, faName(fa), P.Pos(st.Pos())))
 				}
 			}
 		}
@@ -567,7 +627,7 @@ func noEscapeRule(P *Program, R *Report) {
 				continue
 			}
 			fa, ok := st.Addr.(*ssa.FieldAddr)
-			if !ok || typeKey(fa.X.Type()) != "revocation.Witness" || fieldName(fa.X.Type(), fa.Field) != "randomizer" {
+			if !ok || faType(fa) != "revocation.Witness" || faName(fa) != "randomizer" {
 				continue
 			}
 			nrw++
@@ -647,8 +707,8 @@ func chanOpsOn(P *Program, match func(chDesc string) bool) []chanOp {
 					out = append(out, chanOp{fn, "make", mc, x})
 				}
 			case *ssa.Call:
-				if isCallTo(x, "builtin:close") && match(desc(x.Call.Args[0])) {
-					out = append(out, chanOp{fn, "close", x.Call.Args[0], x})
+				if isCallTo(x, "builtin:close") && match(desc(callArgs(x)[0])) {
+					out = append(out, chanOp{fn, "close", callArgs(x)[0], x})
 				}
 			}
 		})
@@ -790,6 +850,11 @@ func cacheProtocolRule(P *Program, R *Report) {
 	}
 }
 
+func isAtomicCall(c ssa.CallInstruction) bool {
+	n := calleeName(c)
+	return strings.HasPrefix(n, "sync/atomic.") || strings.HasPrefix(n, "(*sync/atomic.")
+}
+
 func cprngRule(P *Program, R *Report, rule string) {
 	// all accesses to CPRNG.counter
 	var nonAtomic []string
@@ -797,7 +862,18 @@ func cprngRule(P *Program, R *Report, rule string) {
 	for _, fn := range P.AllFuncs {
 		allInstrs(fn, func(i ssa.Instruction) {
 			fa, ok := i.(*ssa.FieldAddr)
-			if !ok || typeKey(fa.X.Type()) != "common.CPRNG" || fieldName(fa.X.Type(), fa.Field) != "counter" {
+			if !ok || faType(fa) != "common.CPRNG" || faName(fa) != "counter" {
+				return
+			}
+			if strings.HasPrefix(typeStr(fa.Type()), "*sync/atomic.") {
+				// a typed atomic has no non-atomic access: only its methods (go vet's copylocks covers copying it)
+				for _, r := range referrersOf(fa) {
+					if u, isCall := r.(*ssa.Call); isCall && isAtomicCall(u) {
+						nAtomic++
+					} else if _, isDbg := r.(*ssa.DebugRef); !isDbg {
+						nonAtomic = append(nonAtomic, fmt.Sprintf("%s: %T on the typed atomic", FuncKey(fn), r))
+					}
+				}
 				return
 			}
 			for _, r := range referrersOf(fa) {
@@ -834,17 +910,21 @@ func cprngRule(P *Program, R *Report, rule string) {
 	var nA Affine
 	deepVisit(P, fn, 1, func(g *ssa.Function) {
 		for _, c := range callsIn(g) {
-			if strings.HasPrefix(calleeName(c), "sync/atomic.") {
-				cc := c.(*ssa.Call)
+			if isAtomicCall(c) {
+				cc, isC := c.(*ssa.Call)
+				if !isC {
+					continue
+				}
 				atomics = append(atomics, cc)
-				if len(cc.Call.Args) == 2 {
-					addD, nD = desc(cc), desc(cc.Call.Args[1])
-					nA, _ = affineOf(cc.Call.Args[1])
+				if len(callArgs(cc)) == 2 {
+					addD, nD = desc(cc), desc(callArgs(cc)[1])
+					nA, _ = affineOf(callArgs(cc)[1])
 				}
 			}
 		}
 	})
-	if len(atomics) != 1 || calleeName(atomics[0]) != "sync/atomic.AddUint64" {
+	// (the function form on a plain word or the method form on the typed atomic: both are one indivisible add)
+	if len(atomics) != 1 || (calleeName(atomics[0]) != "sync/atomic.AddUint64" && calleeName(atomics[0]) != "(*sync/atomic.Uint64).Add") {
 		names := []string{}
 		for _, a := range atomics {
 			names = append(names, calleeName(a))
@@ -860,7 +940,7 @@ func cprngRule(P *Program, R *Report, rule string) {
 	var ivPhi *ssa.Phi
 	allInstrs(fn, func(i ssa.Instruction) {
 		if c, ok := i.(*ssa.Call); ok && strings.HasSuffix(calleeName(c), ".PutUint64") {
-			args := c.Call.Args
+			args := callArgs(c)
 			if p, ok := args[len(args)-1].(*ssa.Phi); ok {
 				ivPhi = p
 			}
@@ -876,7 +956,7 @@ func cprngRule(P *Program, R *Report, rule string) {
 				init = true
 			}
 			if b, isB := e.(*ssa.BinOp); isB {
-				if b.Op == token.SUB && b.X == ssa.Value(add) && b.Y == add.Call.Args[1] {
+				if b.Op == token.SUB && b.X == ssa.Value(add) && b.Y == callArgs(add)[1] {
 					init = true
 				}
 				if b.Op == token.ADD && b.X == ssa.Value(ivPhi) {
@@ -899,11 +979,11 @@ func cprngRule(P *Program, R *Report, rule string) {
 			return
 		}
 		nEnc++
-		if strings.HasPrefix(desc(c.Call.Args[0]), "phi(") || desc(c.Call.Args[0]) == "arg#1" || strings.Contains(desc(c.Call.Args[0]), "arg#1") {
+		if strings.HasPrefix(desc(callArgs(c)[0]), "phi(") || desc(callArgs(c)[0]) == "arg#1" || strings.Contains(desc(callArgs(c)[0]), "arg#1") {
 			// direct into buf: the same block must advance buf by 16
 			adv := false
 			for _, j := range c.Block().Instrs {
-				if sl, oks := j.(*ssa.Slice); oks && sl.X == c.Call.Args[0] && sl.Low != nil {
+				if sl, oks := j.(*ssa.Slice); oks && sl.X == callArgs(c)[0] && sl.Low != nil {
 					if k, okk := constInt(sl.Low); okk && k == 16 {
 						adv = true
 					}
@@ -945,7 +1025,7 @@ func memoPerObjectRule(P *Program, R *Report) {
 		argsOK := false
 		for _, c := range callsIn(fn) {
 			if isCallTo(c, "revocation.NewProofCommit") {
-				a := c.Common().Args
+				a := callArgs(c)
 				argsOK = desc(a[0]) == "<gabi.NonRevocationProofBuilder>.pk" && desc(a[1]) == "<gabi.NonRevocationProofBuilder>.witness" && desc(a[2]) == "<gabi.NonRevocationProofBuilder>.randomizer"
 			}
 		}
@@ -970,7 +1050,7 @@ func memoPerObjectRule(P *Program, R *Report) {
 					continue
 				}
 				n++
-				a := c.Common().Args
+				a := callArgs(c)
 				idx := "#i"
 				good := FuncKey(g) == kDPBCommit && desc(a[1]) == dpb+".pk" && desc(a[2]) == dpb+".attributes["+idx+"]" && desc(a[3]) == dpb+".attrRandomizers["+idx+"]" &&
 					strings.HasPrefix(desc(a[0]), dpb+".rpStructures["+idx+"]")
